@@ -17,8 +17,9 @@ import (
 // therefore starts a watchdog: when no counter of the report has moved for HangAfter, the stacks of all goroutines are
 // examined; if one of them is parked in a channel operation, lock or wait whose nearest non-runtime caller is a function
 // OF THE LIBRARY (module packages outside internal/verif), the hang is the library's and is reported as a violation
-// ("call-never-returns/<function>", with the parked goroutine's frames); otherwise it is a tool error. Either way the
-// part ends at once with its evidence written.
+// ("call-never-returns/<function>", with the parked goroutine's frames) and the part ends at once with its evidence
+// written; otherwise the watchdog keeps quiet (a long phase of the harness itself) and the runner's hard timeout remains
+// the backstop.
 
 // HangAfter is the no-progress interval after which the watchdog acts (VERIF_HANG_S, default 90 s).
 func hangAfter() time.Duration {
@@ -39,7 +40,7 @@ func GuardProcess() {
 	go func() {
 		time.Sleep(hangAfter() / 2)
 
-		if fn, excerpt := blockedInLibrary(); fn != "" {
+		if fn, excerpt := blockedInLibrary(false); fn != "" {
 			fmt.Printf("COLD-CALL-NEVER-RETURNS %s: %s\n", fn, excerpt)
 			os.Exit(3)
 		} else {
@@ -97,13 +98,17 @@ func (r *Report) startWatchdog() {
 				continue
 			}
 
-			fn, excerpt := blockedInLibrary()
-			if fn != "" {
-				r.Violation("call-never-returns/"+fn, fmt.Sprintf("no progress for %v; a goroutine is parked inside the library and nothing can wake it: %s", limit, excerpt), map[string]string{"op": "hang", "function": fn})
-			} else {
-				r.ToolError("no progress for %v and no goroutine is parked inside the library: %s", limit, excerpt)
+			// With the default interval the parked goroutine must itself have been waiting for at least a minute (the
+			// runtime prints the duration from one minute on): a helper that is merely slow is not a hang.
+			fn, excerpt := blockedInLibrary(limit >= 90*time.Second)
+			if fn == "" {
+				// Nothing is parked inside the library: a long phase of the harness itself (building an alphabet, an
+				// external build on a busy machine). Not this watchdog's business; the runner's hard timeout remains.
+				since = time.Now()
+				continue
 			}
 
+			r.Violation("call-never-returns/"+fn, fmt.Sprintf("no progress for %v; a goroutine is parked inside the library and nothing can wake it: %s", limit, excerpt), map[string]string{"op": "hang", "function": fn})
 			os.Exit(r.Finish())
 		}
 	}()
@@ -113,7 +118,7 @@ const modulePrefix = "github.com/bytemare/secp256k1"
 
 // blockedInLibrary looks for a goroutine parked in a blocking operation whose nearest caller outside the runtime, the
 // sync packages and the harness's shims is a library function.
-func blockedInLibrary() (fn, excerpt string) {
+func blockedInLibrary(longParked bool) (fn, excerpt string) {
 	buf := make([]byte, 8<<20)
 	buf = buf[:runtime.Stack(buf, true)]
 	first := ""
@@ -135,7 +140,7 @@ func blockedInLibrary() (fn, excerpt string) {
 			parked = parked || strings.HasPrefix(state, s)
 		}
 
-		if !parked {
+		if !parked || (longParked && !strings.Contains(lines[0], "minutes")) {
 			continue
 		}
 
